@@ -25,7 +25,15 @@ ASSUMPTIONS = [
 ]
 SHARDS_THOROUGH = 8
 
-F_GRID = [0.0] + [k / 16 for k in range(1, 16)] + [0.999]
+F_GRID = [0.0, 1e-4, 0.002, 0.005] + [k / 16 for k in range(1, 16)] + [0.999]
+
+
+def ftol(F, ploidy):
+    """lgamma of the summed dispersion (1-F)/F is large for tiny F: its rounding error bounds the attainable accuracy."""
+    if F <= 0:
+        return 1e-9
+    A = (1 - F) / F
+    return 1e-9 + 8e-15 * ploidy * abs(math.lgamma(ploidy + A))
 
 
 def lclose(a, b, tol=1e-9):
@@ -76,7 +84,7 @@ def check_space(ctx, ploidy, n_alleles, F, fname, freqs):
             lp = float(CP.log_genotype_prior(arr, n_alleles, inbreeding=F, frequencies=f_arr))
             n_eval += 1
             total += math.exp(lp) if lp > -math.inf else 0.0
-            if not lclose(lp, R.log_or_neginf(p_ref)):
+            if not lclose(lp, R.log_or_neginf(p_ref), ftol(F, ploidy)):
                 problems.append(Problem("calling_prior:pointwise", "log_genotype_prior(%s, n=%d, F=%r, freq=%s)=%r reference=%r" % (list(g), n_alleles, F, freqs, lp, R.log_or_neginf(p_ref))))
                 break
             # order of alleles must not matter
@@ -99,14 +107,14 @@ def check_space(ctx, ploidy, n_alleles, F, fname, freqs):
                 expect = ordered_ref[g] / denom
                 got = float(CP.log_genotype_allele_prior(arr, k, n_alleles, inbreeding=F, frequencies=f_arr))
                 n_eval += 1
-                if not lclose(got, R.log_or_neginf(expect)):
+                if not lclose(got, R.log_or_neginf(expect), ftol(F, ploidy)):
                     problems.append(Problem("allele_prior:conditional", "log_genotype_allele_prior(%s, pos %d, n=%d, F=%r, freq=%s)=%r exact conditional=%r" % (list(g), k, n_alleles, F, freqs, got, R.log_or_neginf(expect))))
                     break
             else:
                 continue
             break
         else:
-            if abs(total - 1.0) > 1e-9:
+            if abs(total - 1.0) > ftol(F, ploidy) * max(1, len(gens)) ** 0.5:
                 problems.append(Problem("calling_prior:sum", "sum over %d genotypes = %r (ploidy %d, n=%d, F=%r, freq=%s)" % (len(gens), total, ploidy, n_alleles, F, freqs)))
     nt = (F > 0 and fname not in ("none", "flat")) or fname.startswith("zero")
     ctx.record_bulk(n_eval, 1 if nt else 0,
@@ -147,7 +155,7 @@ def check_assemble(ctx, ploidy, n_alleles_vec, F):
             lp_none = float(CP.log_genotype_prior(arr, n_haps, inbreeding=F, frequencies=None))
             lp_flat = float(CP.log_genotype_prior(arr, n_haps, inbreeding=F, frequencies=flatf))
             ref = R.log_or_neginf(R.genotype_prior(g, [1.0 / n_haps] * n_haps, F))
-            if not (lclose(lp, ref) and lclose(lp, lp_none) and lclose(lp, lp_flat)):
+            if not (lclose(lp, ref, ftol(F, ploidy)) and lclose(lp, lp_none, ftol(F, ploidy)) and lclose(lp, lp_flat, ftol(F, ploidy))):
                 problems.append(Problem("assemble_prior:consistency", "dosage %s N=%d F=%r: assemble=%r call(None)=%r call(flat)=%r reference=%r" % (dosage.tolist(), n_haps, F, lp, lp_none, lp_flat, ref)))
                 break
             # compact dosage (zeros removed / order changed) must give the same value
@@ -161,7 +169,7 @@ def check_assemble(ctx, ploidy, n_alleles_vec, F):
                 problems.append(Problem("ln_equivalent_permutations", "dosage %s: %r vs log(%d)" % (dosage.tolist(), lperm, R.perms(g))))
                 break
         else:
-            if abs(total - 1.0) > 1e-9:
+            if abs(total - 1.0) > ftol(F, ploidy) * 30:
                 problems.append(Problem("assemble_prior:sum", "sum over all genotypes = %r (ploidy %d, n_alleles %s, F=%r)" % (total, ploidy, n_alleles_vec, F)))
     ctx.record_bulk(n_eval * 4, 1 if len(n_alleles_vec) > 1 else 0,
                     case if (ploidy == 3 and n_alleles_vec == [2, 3] and F == 0.25) else None,
@@ -175,7 +183,7 @@ def random_space(draw, max_ploidy):
     n_alleles = draw(st.integers(1, 8))
     while math.comb(n_alleles + ploidy - 1, ploidy) > 4000:
         n_alleles -= 1
-    F = draw(st.one_of(st.sampled_from(F_GRID), st.floats(0.0009765625, 0.998)))
+    F = draw(st.one_of(st.sampled_from(F_GRID), st.floats(1e-5, 0.998), st.floats(1e-5, 0.02)))
     w = [draw(st.integers(0, 16)) for _ in range(n_alleles)]
     if sum(w) == 0:
         w[draw(st.integers(0, n_alleles - 1))] = 1
@@ -221,7 +229,7 @@ def run(ctx):
             n_h = int(np.prod(vec))
             if math.comb(n_h + ploidy - 1, ploidy) > (3000 if quick else 40000):
                 continue
-            for F in (0.0, 0.125, 0.5, 0.9375):
+            for F in (0.0, 1e-4, 0.002, 0.005, 0.125, 0.5, 0.9375):
                 ajobs.append((ploidy, list(vec), F))
     for i, job in enumerate(ajobs):
         if i % ctx.nshards == ctx.shard:
